@@ -9,7 +9,7 @@ import fcntl
 import os
 import re
 
-from vcheck import COQ, REPO, coq_list
+from vcheck import COQ, REPO, ROOT, coq_list
 
 
 def write_gen(ctx, files):
@@ -105,7 +105,7 @@ def run(ctx):
     if not ok and info is not None and info.get("probe_notes"):
         ctx.broken.append(("walk-table", "probing syntax.Walk: " + "; ".join(info["probe_notes"][:8])))
     n = 300 if ctx.tier == "quick" else 6000
-    rc, rows, err = ctx.jsonl([binp, "walk", "-in", REPO, "-seed", str(ctx.seed), "-n", str(n), "-tier", ctx.tier],
+    rc, rows, err = ctx.jsonl([binp, "walk", "-in", REPO, "-seed", str(ctx.seed), "-n", str(n), "-tier", ctx.tier, os.path.join(ROOT, "corpus", "c14", "regress.jsonl")],
                               timeout=3000)
     summ = [r for r in rows if "summary" in r]
     if rc != 0 or not summ:
